@@ -30,7 +30,11 @@ use crate::{
     world::{content, gen_ent, hexbytes, world, Ent, GenCfg},
 };
 
-pub struct ActorScen;
+pub struct ActorScen {
+    /// C07: histories biased to capability imports while documents are open; only the replies to
+    /// writes, deletions, secret export and imports are judged
+    pub cap_focus: bool,
+}
 
 #[derive(Serialize, Deserialize, Clone, Debug)]
 pub enum Req {
@@ -152,7 +156,7 @@ struct Stream {
 impl Scenario for ActorScen {
     type Plan = ActorPlan;
     fn name(&self) -> String {
-        "actor".into()
+        if self.cap_focus { "actor-capability".into() } else { "actor".into() }
     }
 
     fn gen(&self, rng: &mut Rng, tier: Tier) -> ActorPlan {
@@ -166,7 +170,13 @@ impl Scenario for ActorScen {
             let d = rng.below(docs as u64) as u8;
             let client = rng.below(clients as u64) as u8;
             let key = |rng: &mut Rng| crate::world::gen_key(rng, 2);
-            let req = match rng.below(40) {
+            let roll = if self.cap_focus {
+                // imports, opens/closes, writes, deletions, secret export dominate
+                *rng.pick(&[0u64, 1, 2, 6, 12, 13, 14, 15, 18, 36, 36, 36, 36, 37, 37, 20, 33, 38, 39])
+            } else {
+                rng.below(40)
+            };
+            let req = match roll {
                 0..=5 => Req::Open { d, sync: rng.chance(1, 2), sub: rng.chance(1, 4) },
                 6..=9 => Req::Close { d },
                 10..=11 => Req::SetSync { d, on: rng.chance(1, 2) },
@@ -208,7 +218,7 @@ impl Scenario for ActorScen {
     }
 
     fn exec(&self, plan: &ActorPlan, cx: &mut Cx) -> Res {
-        block_on_sim(plan.seed, run(plan, cx))
+        block_on_sim(plan.seed, run(plan, cx, self.cap_focus))
     }
 
     fn shrink(&self, plan: &ActorPlan) -> Vec<ActorPlan> {
@@ -482,6 +492,17 @@ fn model_apply(m: &mut [MDoc], req: &Req, clock: u64, alive: &mut bool, stream_e
     }
 }
 
+fn check_reply_focus(idx: usize, req: &Req, expect: &Expect, reply: Reply, cap_focus: bool) -> Res<Option<iroh_docs::store::Store>> {
+    if cap_focus && !matches!(req, Req::InsertLocal { .. } | Req::DeletePrefix { .. } | Req::ExportSecret { .. } | Req::Import { .. } | Req::Shutdown) {
+        // not judged in capability mode; still hand back the store of a shutdown
+        return Ok(match reply {
+            Reply::Store(Ok(s)) => Some(s),
+            _ => None,
+        });
+    }
+    check_reply(idx, req, expect, reply)
+}
+
 fn check_reply(idx: usize, req: &Req, expect: &Expect, reply: Reply) -> Res<Option<iroh_docs::store::Store>> {
     let bad = |what: String| Violation::new(format!("reply/{}", req_name(req)), format!("request #{idx} {req:?}: {what}"));
     let is_ok = match &reply {
@@ -560,7 +581,7 @@ fn finish_stream(s: &Stream) -> Res {
     Ok(())
 }
 
-async fn run(plan: &ActorPlan, cx: &mut Cx) -> Res {
+async fn run(plan: &ActorPlan, cx: &mut Cx, cap_focus: bool) -> Res {
     let w = world();
     let mut sut = Sut::new(plan.backend)?;
     let mut m: Vec<MDoc> = vec![MDoc::default(); crate::world::N_DOCS];
@@ -611,7 +632,7 @@ async fn run(plan: &ActorPlan, cx: &mut Cx) -> Res {
                 match poll_once(&mut fut) {
                     Poll::Ready(reply) => {
                         // completes at once only if the request could not be sent (actor stopped) or needs no reply
-                        if let Some(st) = check_reply(idx, req, &expect, reply)? {
+                        if let Some(st) = check_reply_focus(idx, req, &expect, reply, cap_focus)? {
                             returned = Some(st);
                         }
                     }
@@ -647,7 +668,7 @@ async fn run(plan: &ActorPlan, cx: &mut Cx) -> Res {
                     };
                     let _ = (i, &mut order_ok);
                     cx.ev("reply", format!("#{idx} {}", match &reply { Reply::Store(_) => "store".to_string(), r => format!("{r:?}").chars().take(80).collect() }));
-                    if let Some(st) = check_reply(idx, &req, &expect, reply)? {
+                    if let Some(st) = check_reply_focus(idx, &req, &expect, reply, cap_focus)? {
                         returned = Some(st);
                     }
                 }
@@ -697,7 +718,7 @@ async fn run(plan: &ActorPlan, cx: &mut Cx) -> Res {
                 if done {
                     let s = streams.remove(0);
                     // a stream cut short by a shutdown is not judged: its task is aborted with the actor
-                    if alive {
+                    if alive && !cap_focus {
                         finish_stream(&s)?;
                     }
                 }
@@ -728,9 +749,9 @@ async fn run(plan: &ActorPlan, cx: &mut Cx) -> Res {
             }
         }
         // a stream cut short by shutdown is not judged (its task is aborted with the actor)
-        if alive && complete {
+        if alive && complete && !cap_focus {
             finish_stream(&s)?;
-        } else if alive && !complete {
+        } else if alive && !complete && !cap_focus {
             return Err(Violation::new("hang/get-many", format!("stream of request #{} never ends", s.idx)));
         }
     }
